@@ -113,7 +113,7 @@ func c06Property(rt *rapid.T, ev *evid.Rec, deps bool) {
 			aboveHead = true
 		}
 	}
-	nact := rapid.IntRange(3, scale(16, 40)).Draw(rt, "nactions")
+	nact := drawActions(rt, 3, 16, 40)
 	for i := 0; i < nact; i++ {
 		switch rapid.IntRange(0, 9).Draw(rt, "action") {
 		case 0, 1, 2:
